@@ -27,7 +27,7 @@ func init() {
 		ID:      "C13",
 		Level:   "exploration",
 		Workers: 16,
-		Rule: fmt.Sprintf("complete matrix entry mode {create, subscribe, subscribe-or-create} x existing datatype {none, same type, other type, same type already subscribed by this client} x other client {absent, sequentially first, racing in parallel (2-5 clients)} x point of history {fresh, after operations, after a snapshot exists} x four types = %d cells, repeated with different seeds (operations before / after, number of racers). Expected outcome from the statement: create on a key that exists, subscribe on a missing key, any mode on a key of another type => the error handler receives an error, the stored data are unchanged (store diff empty, volatile timestamps ignored), no transition to SUBSCRIBED; otherwise success: state SUBSCRIBED, the state-change handler reports -> SUBSCRIBED exactly once, the first readable state equals the replay of the log up to the response checkpoint; racing clients: exactly one datatype document per (collection, key) and outcomes consistent with some serial order; in every second repetition of the non-racing cells the entering client's first request is aborted by the server (one database command of its handler fails): the abort must reach the error handler, must not make the datatype SUBSCRIBED, must change nothing stored when the failed command is a read, and the retry is judged like a first entry; ",
+		Rule: fmt.Sprintf("complete matrix entry mode {create, subscribe, subscribe-or-create} x existing datatype {none, same type, other type, same type already subscribed by this client} x other client {absent, sequentially first, racing in parallel (2-5 clients)} x point of history {fresh, after operations, after a snapshot exists} x four types = %d cells, repeated with different seeds (operations before / after, number of racers). Expected outcome from the statement: create on a key that exists, subscribe on a missing key, any mode on a key of another type => the error handler receives an error, the stored data are unchanged (store diff empty, volatile timestamps ignored), no transition to SUBSCRIBED; otherwise success: state SUBSCRIBED, the state-change handler reports -> SUBSCRIBED exactly once, the first readable state equals the replay of the log up to the response checkpoint; racing clients: exactly one datatype document per (collection, key) and outcomes consistent with some serial order; in every second repetition of the non-racing cells the entering client's first request is aborted by the server (one database command of its handler fails): the abort must reach the error handler, must not make the datatype SUBSCRIBED, must change nothing stored when the failed command is a read, and the retry is judged like a first entry; in half of the repetitions of the single-entry cells a successful entry response is delivered a second time: same state, no second report of SUBSCRIBED; ",
 			c13Cells()) +
 			"non-trivial = every cell; distinct = cell x repetition",
 		Assumptions: []string{
@@ -447,6 +447,33 @@ func runC13(c *core.Case) *core.Result {
 		doSync(e, true)
 		if res := judge(e, expectOK(exists, sameType), true); res != nil {
 			return res
+		}
+		if rep%4 >= 2 && expectOK(exists, sameType) && e.ex.Resp != nil {
+			// the entry response reaches the client a second time (duplicated on the way): the
+			// client must still hold the datatype's state at the position it subscribed at, and
+			// must not report the transition to SUBSCRIBED again
+			viewBefore := e.d.View()
+			c.Step("%s receives its entry response a second time", e.cl.Alias)
+			if pm := e.cl.Apply(e.ex.Resp); pm != "" {
+				return c.Violation("client-panic", "ApplyPushPullPack panicked on the second delivery of the entry response: %s", pm)
+			}
+			if !w.idle() {
+				return c.Inconclusive("idle")
+			}
+			if v := e.d.View(); v != viewBefore {
+				return c.Violation("first-state-after-duplicate-response", "after %s the client read %s; after the same entry response was delivered a second time it reads %s", mode, clip(viewBefore, 400), clip(v, 400))
+			}
+			_, trs, _ := e.d.Handler()
+			n := 0
+			for _, t := range trs {
+				if t.New == model.StateOfDatatype_SUBSCRIBED {
+					n++
+				}
+			}
+			if n != 1 {
+				return c.Violation("subscribed-reported-times", "after a duplicated entry response the state-change handler has reported the transition to SUBSCRIBED %d times", n)
+			}
+			c.Count("entry_responses_delivered_twice", 1)
 		}
 		entries = append(entries, e)
 	case other == "sequentially-first":
